@@ -54,6 +54,20 @@ def visited_terms(p: P.Path) -> list[tuple]:
     return out
 
 
+def skipped_elements(p: P.Path, field: str) -> bool:
+    """A comprehension over node.<field> whose elements are visited only conditionally (filter or conditional element)."""
+    f = ("attr", NODE, field)
+    for tm in p.all_terms():
+        for s in T.walk(tm):
+            if s[0] == "comp" and s[3] and s[3][0][0] == f:
+                elt = s[2]
+                unconditional = elt[0] == "call" and elt[1][0] == "attr" and elt[1][1] == ("param", "self") and elt[1][2] in ("visit", "generic_visit") and elt[2][:1] == (("elem", f),)
+                if s[4] or not unconditional:
+                    if T.contains(elt, lambda x: x[0] == "call" and x[1][0] == "attr" and x[1][2] in ("visit", "generic_visit")):
+                        return True
+    return False
+
+
 def flows(field: str, is_list: bool, visited) -> bool:
     f = ("attr", NODE, field)
     for kind, tm in visited:
@@ -84,7 +98,7 @@ def r20_1(prog: Program, rep: Report, cls):
             if p.exit[0] != "return":
                 continue
             vis = visited_terms(p)
-            missing = [f for f, is_list in fields if not flows(f, is_list, vis)]
+            missing = [f for f, is_list in fields if not flows(f, is_list, vis) or (is_list and skipped_elements(p, f))]
             gs = "; ".join(("" if pol else "not ") + T.show(g)[:50] for g, pol in p.guards()) or "unconditional"
             n += 1
             if not fields:
